@@ -263,7 +263,7 @@ type inprocWorker struct {
 
 func (w *inprocWorker) ID() string { return fmt.Sprintf("w%d", w.id) }
 
-func tier2Params(cfg *Config) reqctx.Tier2RequestParameters {
+func Tier2Params(cfg *Config) reqctx.Tier2RequestParameters {
 	return reqctx.Tier2RequestParameters{
 		BlockType:            modgen.BlockType,
 		StateBundleSize:      cfg.Seg,
@@ -277,7 +277,7 @@ func tier2Params(cfg *Config) reqctx.Tier2RequestParameters {
 
 // RunTier2 executes one ProcessRange request in-process with the real Tier2Service.
 func RunTier2(ctx context.Context, cfg *Config, request *pbssinternal.ProcessRangeRequest, respFunc substreams.ResponseFunc) error {
-	ctx = reqctx.WithTier2RequestParameters(ctx, tier2Params(cfg))
+	ctx = reqctx.WithTier2RequestParameters(ctx, Tier2Params(cfg))
 	factory := func(ctx context.Context, h bstream.Handler, startBlockNum int64, stopBlockNum uint64, cursor string, _ bool, _ bool, _ *zap.Logger, _ ...stream.Option) (service.Streamable, error) {
 		pipe, ok := h.(*pipeline.Pipeline)
 		if !ok {
@@ -293,7 +293,7 @@ func RunTier2(ctx context.Context, cfg *Config, request *pbssinternal.ProcessRan
 }
 
 func (w *inprocWorker) Work(ctx context.Context, unit stage.Unit, startBlock uint64, moduleNames []string, upstream *response.Stream) loop.Cmd {
-	ctx = reqctx.WithTier2RequestParameters(ctx, tier2Params(w.cfg))
+	ctx = reqctx.WithTier2RequestParameters(ctx, Tier2Params(w.cfg))
 	request := work.NewRequest(ctx, reqctx.Details(ctx), unit.Stage, startBlock)
 	if w.cfg.OnJob != nil {
 		w.cfg.OnJob(unit)
